@@ -149,12 +149,16 @@ def check(ctx: Ctx, ev: Evidence) -> list[Finding]:
         if not okk:
             out.append(Finding("C19-R4", "source handler | configured segment length not guarded by `configured < derived`", "the configured maximum segment length is chosen although it is not smaller than the derived one", "src/cfdppy/handler/source.py"))
     n_calls = set()
+    modified: set = set()
     okk = True
     for s in results:
         calls = [x for x in s.ev if x.kind == "env" and x.name == "seq_num_provider.get_and_increment"]
         n_calls.add(len(calls))
         seq = repr(hk.read_term(s, "_params.pdu_conf.transaction_seq_num"))
         tid = repr(hk.read_term(s, "_params.transaction_id"))
+        why = _seq_value_modified(seq)
+        if why:
+            modified.add(why)
         if len(calls) != 1 or "seq_num_provider.get_and_increment" not in seq or "seq_num_provider.get_and_increment" not in tid:
             okk = False
     ev.inst("C19-R5", f"get_and_increment calls per transaction start: {sorted(n_calls)}", "ok" if n_calls == {1} else "violation")
@@ -163,6 +167,11 @@ def check(ctx: Ctx, ev: Evidence) -> list[Finding]:
         out.append(Finding("C19-R5", f"source handler | get_and_increment called {sorted(n_calls)} times per transaction start", "a transaction start does not obtain exactly one sequence number", "src/cfdppy/handler/source.py"))
     elif not okk:
         out.append(Finding("C19-R5", "source handler | sequence number origin", "the PDU sequence number or the transaction id does not originate from the value obtained from the provider", "src/cfdppy/handler/source.py"))
+    # R5b: the value is taken over as obtained (or reduced modulo 2**width, the identity on the provider's range): any other
+    # arithmetic on it changes the identifier for some provider value
+    ev.inst("C19-R5", "PDU sequence number is the provider's value itself (or that value mod 2**width)", "violation" if modified else "ok")
+    for why in sorted(modified):
+        out.append(Finding("C19-R5", "source handler | sequence number value modified", f"the PDU sequence number is not the value obtained from the provider: {why}", "src/cfdppy/handler/source.py"))
     # no other call site of the provider
     for e in a.edges:
         for x in e.ev:
@@ -171,3 +180,66 @@ def check(ctx: Ctx, ev: Evidence) -> list[Finding]:
                 out.append(Finding("C19-R5", f"source handler | provider consulted on a {e.label[0]} edge that does not start a transaction", "the sequence-number provider is consulted outside the transaction start", x.site))
     ev.extra["explanation"] = "every put_request edge of the source handler's ATS (request mode/closure x MIB mode/closure x handler state), syntax-tree check of the configuration table keys, and a focused abstract run of the transaction start keeping origin terms"
     return out
+
+
+def _seq_value_modified(term: str):
+    """Origin term of PduConfig.transaction_seq_num, e.g.
+    ByteFieldGenerator.from_int(floordiv(seq_num_provider.max_bit_width, 8), seq_num_provider.get_and_increment(0)).
+    Returns a description when the value argument is the provider's value under arithmetic other than `mod 2**width`,
+    None when it is the value itself, an accepted identity, or a shape this rule does not know (then only the
+    containment rule above decides)."""
+    import ast as _ast
+    try:
+        tree = _ast.parse(term, mode="eval").body
+    except SyntaxError:
+        return None
+
+    def dotted(n):
+        if isinstance(n, _ast.Name):
+            return n.id
+        if isinstance(n, _ast.Attribute):
+            b = dotted(n.value)
+            return None if b is None else b + "." + n.attr
+        return None
+
+    def is_provider(n):
+        return isinstance(n, _ast.Call) and dotted(n.func) == "seq_num_provider.get_and_increment"
+
+    def is_width(n):
+        return dotted(n) == "seq_num_provider.max_bit_width"
+
+    def const(n, v):
+        return isinstance(n, _ast.Constant) and n.value == v
+
+    def is_pow2width(n):
+        if isinstance(n, _ast.Call) and dotted(n.func) == "pow" and len(n.args) == 2:
+            return const(n.args[0], 2) and is_width(n.args[1])
+        if isinstance(n, _ast.Call) and dotted(n.func) == "lshift" and len(n.args) == 2:
+            return const(n.args[0], 1) and is_width(n.args[1])
+        if isinstance(n, _ast.BinOp) and isinstance(n.op, _ast.Pow):
+            return const(n.left, 2) and is_width(n.right)
+        if isinstance(n, _ast.BinOp) and isinstance(n.op, _ast.LShift):
+            return const(n.left, 1) and is_width(n.right)
+        return False
+
+    ARITH = {"mod", "add", "sub", "mul", "floordiv", "truediv", "and_", "or_", "xor", "lshift", "rshift", "bitand", "bitor", "bitxor", "neg", "invert"}
+
+    def verdict(v):
+        if is_provider(v):
+            return None
+        if isinstance(v, _ast.Call) and dotted(v.func) == "int" and len(v.args) == 1:
+            return verdict(v.args[0])
+        name = dotted(v.func) if isinstance(v, _ast.Call) else None
+        if name == "mod" and len(v.args) == 2 and is_provider(v.args[0]) and is_pow2width(v.args[1]):
+            return None
+        if isinstance(v, _ast.BinOp) and isinstance(v.op, _ast.Mod) and is_provider(v.left) and is_pow2width(v.right):
+            return None
+        arith = (name in ARITH) or isinstance(v, (_ast.BinOp, _ast.UnaryOp))
+        if arith and any(is_provider(x) for x in _ast.walk(v)):
+            return _ast.unparse(v)
+        return None
+
+    for n in _ast.walk(tree):
+        if isinstance(n, _ast.Call) and (dotted(n.func) or "").endswith("from_int") and len(n.args) == 2:
+            return verdict(n.args[1])
+    return None
